@@ -10,7 +10,7 @@ EXPLANATION = ("AgentDef.route / hosting_cost / attribute access and create_agen
                "cost model of the statement; a mass-created agent equals, field by field, the individually built one.")
 ASSUMPTIONS = ["costs are symbolic integers in [-2^20, 2^20]; names are drawn from small fixed sets of strings",
                "extra attributes: capacity (symbolic) and a string attribute"]
-BOUNDS = {"quick": "names in {a1,a2,a3}, computations in {c1,c2}; every subset of specific routes / hosting costs; index kinds list(2), range(1..3,11), tuple of two lists",
+BOUNDS = {"quick": "names in {a1,a2,a3}, computations in {c1,c2}; every subset of specific routes (incl. an entry for the agent itself) / hosting costs; index kinds list(2), range(1..3,11), tuple of two lists",
           "thorough": "same (the space is exhausted in quick)"}
 OUTSIDE = "arbitrary strings as names (only a fixed small alphabet of names), float costs"
 CAP_S = {"quick": 600, "thorough": 1800}
@@ -22,7 +22,7 @@ def jobs(tier):
 
 
 def _args(eng):
-    others, comps = ["a2", "a3"], ["c1", "c2"]
+    others, comps = ["a1", "a2", "a3"], ["c1", "c2"]      # a1 is the agent itself: a route table may list its owner
     routes = {o: eng.sym_int("route_" + o, -LIM, LIM) for o in others if eng.choose(2, "has_route_" + o)}
     hosting = {c: eng.sym_int("host_" + c, -LIM, LIM) for c in comps if eng.choose(2, "has_host_" + c)}
     dr = eng.sym_int("default_route", -LIM, LIM)
@@ -88,6 +88,9 @@ def run(eng, p):
             ref = AgentDef(name, default_route=dr, routes=dict(routes), default_hosting_cost=dh, hosting_costs=dict(hosting),
                            capacity=cap, foo="bar")
             conds.append(got.name == ref.name)
+            m_route, m_host = _model(name, routes, hosting, dr, dh)
+            conds += [_same(got.route(o), m_route(o)) for o in ("a1", "a2", "a3", name)]       # the cost model itself
+            conds += [_same(got.hosting_cost(c), m_host(c)) for c in ("c1", "c2", "c9")]
             conds += [_same(got.route(o), ref.route(o)) for o in ("a1", "a2", "a3", name)]
             conds += [_same(got.hosting_cost(c), ref.hosting_cost(c)) for c in ("c1", "c2", "c9")]
             conds.append(_same(got.default_hosting_cost, ref.default_hosting_cost))
